@@ -265,6 +265,36 @@ Proof. unfold pay_deposit. intros H. inv_ok H. eauto. Qed.
 Lemma one_base_coin_pos c a : one_base_coin c = Ok a -> 0 < a.
 Proof. destruct c; cbn; try discriminate. destruct (0 <? amt) eqn:E; [|discriminate]. intros H; injection H as <-. now apply Z.ltb_lt. Qed.
 
+Lemma add_deposit_amt_ok cur dep a : add_deposit_amt cur dep = Ok a ->
+  one_base_coin dep = Ok a /\ cur + a < INT_LIMIT.
+Proof.
+  unfold add_deposit_amt. intros H. inv_ok H.
+  destruct (cur + a0 <? INT_LIMIT) eqn:E; [|discriminate].
+  injection H as <-. split; [assumption|now apply Z.ltb_lt].
+Qed.
+
+Lemma add_deposit_amt_pos cur dep a : add_deposit_amt cur dep = Ok a -> 0 < a.
+Proof. intros H. apply add_deposit_amt_ok in H. destruct H as [H _]. eapply one_base_coin_pos; eauto. Qed.
+
+Lemma opt_amt_bridge cur (dep : Coins) amt :
+  (if coins_empty dep then Ok 0 else add_deposit_amt cur dep) = Ok amt ->
+  (if coins_empty dep then Ok 0 else one_base_coin dep) = Ok amt.
+Proof. destruct (coins_empty dep); [auto|]. intros H. now apply add_deposit_amt_ok in H. Qed.
+
+Lemma opt_amt_limit cur (dep : Coins) amt :
+  (if coins_empty dep then Ok 0 else add_deposit_amt cur dep) = Ok amt ->
+  coins_empty dep = false -> cur + amt < INT_LIMIT.
+Proof. intros H E. rewrite E in H. now apply add_deposit_amt_ok in H. Qed.
+
+Lemma acct_of_unblocked a : is_blocked a = false -> acct_of a = User a.
+Proof.
+  unfold is_blocked, acct_of, ESCROW_ADDR, DEPOSIT_ADDR, FEECOLL_ADDR. intros H.
+  destruct (a =? 9001) eqn:E1; [apply Z.eqb_eq in E1; subst; discriminate|].
+  destruct (a =? 9002) eqn:E2; [apply Z.eqb_eq in E2; subst; discriminate|].
+  destruct (a =? 9003) eqn:E3; [apply Z.eqb_eq in E3; subst; discriminate|].
+  reflexivity.
+Qed.
+
 (* ------------------------------------------------------------------ *)
 (* h_respond taken apart once *)
 
